@@ -96,10 +96,18 @@ pub fn gen_c11(out: &mut Out, seed: u64, thorough: bool) {
             2 => (rng.range(1, 4) as u32, rng.range(1, 4) as u32, rng.range(1, 200) as u32, rng.range(1, 60) as u32),
             _ => (random_size(&mut rng, 64), random_size(&mut rng, 64), random_size(&mut rng, 64), random_size(&mut rng, 64)),
         };
+        // one case in six: destination within a fraction of (or exactly) the crop size, origin whole / fractional /
+        // a hair beside a whole number
+        let near = if rng.chance(1, 6) { Some(crate::c01::near_size(&mut rng, sw, sh)) } else { None };
+        let (dw, dh) = match &near {
+            Some((a, b, _)) => (*a, *b),
+            None => (dw, dh),
+        };
         let mut case = base_case(&mut rng, pt, sw, sh, dw, dh);
         case.alg = AlgSpec::nearest();
         let (fw, fh) = (sw as f64, sh as f64);
-        case.crop = match rng.below(7) {
+        case.crop = match if near.is_some() { 99 } else { rng.below(7) } {
+            99 => near.unwrap().2,
             0 => {
                 // sub-pixel box flush against the right / bottom edge, down to one ulp
                 let e = *rng.pick(&[1e-3, 1e-9, 1e-13, 2.2e-16, 0.5]);
